@@ -101,6 +101,61 @@ func checkC32(r *Run) {
 		}
 	}
 	r.Min("C32-R4", 5)
+	// code that runs on the strand never blocks on a channel: a closure handed to pool.strand (and what it calls
+	// inside package gnet) sends only inside a select with a default / quit case and never receives outside one,
+	// otherwise one stalled peer stops the strand and with it every pool call and Shutdown
+	nStrand := 0
+	seenF := map[*ssa.Function]bool{}
+	var walkStrand func(f *ssa.Function, root string, d int)
+	walkStrand = func(f *ssa.Function, root string, d int) {
+		if f == nil || seenF[f] || f.Blocks == nil || d > 3 {
+			return
+		}
+		seenF[f] = true
+		for _, b := range f.Blocks {
+			for _, in := range b.Instrs {
+				switch x := in.(type) {
+				case *ssa.Send:
+					r.Check("C32-R5", root+": no blocking channel send on the strand (in "+FnName(f)+")", r.P.Pos(x.Pos()), false, "a plain send blocks the strand goroutine while the receiver is not ready")
+				case *ssa.Select:
+					if x.Blocking {
+						r.Check("C32-R5", root+": selects on the strand have a default case (in "+FnName(f)+")", r.P.Pos(x.Pos()), false, "a blocking select on the strand")
+					}
+				case *ssa.UnOp:
+					if x.Op == token.ARROW {
+						r.Check("C32-R5", root+": no blocking channel receive on the strand (in "+FnName(f)+")", r.P.Pos(x.Pos()), false, "")
+					}
+				case ssa.CallInstruction:
+					if cal := x.Common().StaticCallee(); cal != nil && cal.Pkg != nil && strings.HasSuffix(cal.Pkg.Pkg.Path(), "/daemon/gnet") && FnName(cal) != "daemon/gnet.ConnectionPool.strand" {
+						walkStrand(cal, root, d+1)
+					}
+					if mc, ok := x.Common().Value.(*ssa.MakeClosure); ok {
+						if cf, ok := mc.Fn.(*ssa.Function); ok {
+							walkStrand(cf, root, d+1)
+						}
+					}
+				}
+			}
+		}
+	}
+	for _, fn := range r.P.ModFns {
+		if !strings.HasPrefix(FnName(fn), "daemon/gnet.") {
+			continue
+		}
+		for _, cs := range r.CallSites(fn, "daemon/gnet.ConnectionPool.strand") {
+			for _, a := range cs.Common().Args {
+				if mc, ok := a.(*ssa.MakeClosure); ok {
+					if cf, ok := mc.Fn.(*ssa.Function); ok {
+						nStrand++
+						walkStrand(cf, FnName(fn), 0)
+					}
+				}
+			}
+		}
+	}
+	r.Units["strand closures inspected for blocking channel operations"] = nStrand
+	r.Check("C32-R5", "closures handed to the strand", "", nStrand >= 10, fmt.Sprint(nStrand))
+	r.Pass("C32-R5", "no closure run on the strand blocks on a channel", "", fmt.Sprintf("%d closures and their gnet callees", nStrand))
 	// Shutdown waits for strandDone and every pool call is served by the strand: the strand goroutine is started
 	// before Run can return for any reason (a listen failure included)
 	if fn := r.fn("C32-R4", "daemon/gnet.ConnectionPool.Run"); fn != nil {
